@@ -1177,3 +1177,18 @@ example :
     ∧ (RP.traverse rpExSch rpExRoot (ascii "sub.")).isSome = true
     ∧ (RP.traverse rpExSch rpExRoot (ascii "sub..val")).isSome = false := by
   decide
+
+/-- facts tie for `response_body` selection (extract/c10.go, go/ast over transcoding/http.go, regenerated on every run):
+    `traverseFieldPath` looks fields up with `ByName` only (proto names; no `ByJSONName`), refuses to continue after
+    `fd.Message() == nil || fd.Cardinality() == protoreflect.Repeated` (scalar, repeated and map fields — `RP.walk`'s
+    "only `.msg`" branch), descends with `msg.Mutable(fd).Message()` only; `standardResponseTranscoder.transcodeFunc`
+    hands exactly the walk's `msg, fd` to the marshal callback (`f(msg, fd)`; `f(protomsg.ProtoReflect(), nil)` for a
+    Status) and assigns `msg` / `fd` once — nothing re-targets the selection after the walk. -/
+theorem C10_facts_response_body_selection :
+    GB.Generated.c10TraverseLookups = ["ByName"] ∧
+    GB.Generated.c10TraverseNotMessageCond = "fd.Message() == nil || fd.Cardinality() == protoreflect.Repeated" ∧
+    GB.Generated.c10TraverseDescend = ["msg.Mutable(fd).Message()"] ∧
+    GB.Generated.c10RespTranscodeCalls =
+      ["f(protomsg.ProtoReflect(), nil)", "traverseFieldPath(protomsg.ProtoReflect(), t.req.Binding.ResponseBodyPath)", "f(msg, fd)"] ∧
+    GB.Generated.c10RespTranscodeAssigns = [("fd", 1), ("msg", 1)] := by
+  decide
